@@ -132,7 +132,7 @@ func (h *harness) tailCase(r *rng, name string) {
 			for i := range g {
 				g[i] = byte(r.next())
 			}
-			if r.chance(50) {
+			if n >= 2 && r.chance(50) {
 				g[0], g[1] = byte(r.intn(4)), 0 // small key size: plausible header
 				if n >= 6 {
 					g[2], g[3], g[4], g[5] = byte(r.intn(30)), 0, 0, 0
@@ -166,7 +166,7 @@ func (h *harness) tailCase(r *rng, name string) {
 			desc = "none"
 		}
 		im.Files[id] = data
-		h.stat("tail." + strings.SplitN(strings.SplitN(desc, "@", 2)[0], ":", 2)[0])
+		h.stat("tail." + strings.TrimRight(strings.SplitN(strings.SplitN(desc, "@", 2)[0], ":", 2)[0], "0123456789"))
 		h.emit("case %s-v%d", name, v)
 		h.emit("cfg %s hashseed=%d", c.Cfg.line(), c.Cfg.HashSeed)
 		h.emit("tail target=%s kind=%s", strings.TrimPrefix(target, dbDir+"/"), desc)
